@@ -7,6 +7,8 @@ from fractions import Fraction
 
 import numpy as np
 
+import time
+
 import common
 from common import Check, coq_eval_parallel, parse_coq_list, run_impl
 
@@ -22,6 +24,9 @@ Open Scope nat_scope.
 Set Printing Width 1000000.
 Set Printing Depth 1000000.
 """
+
+HEADER_QS = HEADER + "Notation ofq := qs_of_Q.\nNotation envq := env_Q.\nNotation seq_ok := seq_ok_QS.\nNotation seq_case := (@seq_case QS).\n"
+HEADER_Q = HEADER + "Notation ofq := Qred.\nNotation envq := env_Qplain.\nNotation seq_ok := seq_ok_Q.\nNotation seq_case := (@seq_case Q).\n"
 
 ONE_MODE = ["Phaseshifter", "Fourier", "Squeezing", "QuadraticPhase"]
 TWO_MODE = ["Beamsplitter", "Beamsplitter5050", "MachZehnder", "Squeezing2", "ControlledX", "ControlledZ"]
@@ -41,16 +46,20 @@ SS = [Fraction(p, q) for q in (1, 2, 3, 4) for p in range(-7, 8) if math.gcd(p, 
 def qz(fr):
     fr = Fraction(fr)
     n = fr.numerator
-    return "(Qmake %s %d%%positive)" % ("(%d)%%Z" % n, fr.denominator)
+    return "(qq %s %d)" % ("(%d)" % n if n < 0 else str(n), fr.denominator)
 
 
-def qfloat(x):
-    """exact rational value of a float"""
-    return qz(Fraction(float(x)))
+SCALE = 10 ** 12
+
+
+def zf(x):
+    """a float as the integer round(x * 10^12) (Coq side: fz)"""
+    n = round(Fraction(float(x)) * SCALE)
+    return "(%d)" % n if n < 0 else str(n)
 
 
 def cxq(re, im):
-    return "(qs_of_Q %s, qs_of_Q %s)" % (qz(re), qz(im))
+    return "(ofq %s, ofq %s)" % (qz(re), qz(im))
 
 
 def nlist(xs):
@@ -63,7 +72,7 @@ def cmat(rows):
 
 def fmat(rows):
     """matrix of complex floats [[ [re,im] ]] -> Coq list (list (Q*Q))"""
-    return "[" + "; ".join("[" + "; ".join("(%s, %s)" % (qfloat(a), qfloat(b)) for a, b in r) + "]" for r in rows) + "]"
+    return "[" + "; ".join("[" + "; ".join("(%s, %s)" % (zf(a), zf(b)) for a, b in r) + "]" for r in rows) + "]%Z"
 
 
 # --------------------------------------------------------------------------- parameters
@@ -82,7 +91,7 @@ class Par:
             self.s = pick([Fraction(0), self.s])
 
     def env(self):
-        return "(env_Q %s %s %s %s %s %s)" % (qz(self.t["theta"]), qz(self.t["phi"]), qz(self.t["int_"]),
+        return "(envq %s %s %s %s %s %s)" % (qz(self.t["theta"]), qz(self.t["phi"]), qz(self.t["int_"]),
                                              qz(self.t["ext"]), qz(self.u), qz(self.s))
 
     def floats(self, gate):
@@ -125,15 +134,15 @@ def make_op(rng, kind, modes, special=False):
         t = rng.choice(TS)
         c, s = (1 - t * t) / (1 + t * t), 2 * t / (1 + t * t)
         return ({"k": "gate", "name": kind, "params": {"r": float(r), "phi": 2.0 * math.atan(float(t))}, "modes": list(modes)},
-                "ODisplacement (qs_of_Q %s) (qs_of_Q %s) (qs_of_Q %s) %s" % (qz(r), qz(c), qz(s), ml), (kind, tuple(modes)))
+                "ODisplacement (ofq %s) (ofq %s) (ofq %s) %s" % (qz(r), qz(c), qz(s), ml), (kind, tuple(modes)))
     if kind == "PositionDisplacement":
         x = rng.choice(SS)
         return ({"k": "gate", "name": kind, "params": {"x": float(x)}, "modes": list(modes)},
-                "OPositionDisplacement (qs_of_Q %s) %s" % (qz(x), ml), (kind, tuple(modes)))
+                "OPositionDisplacement (ofq %s) %s" % (qz(x), ml), (kind, tuple(modes)))
     if kind == "MomentumDisplacement":
         x = rng.choice(SS)
         return ({"k": "gate", "name": kind, "params": {"p": float(x)}, "modes": list(modes)},
-                "OMomentumDisplacement (qs_of_Q %s) %s" % (qz(x), ml), (kind, tuple(modes)))
+                "OMomentumDisplacement (ofq %s) %s" % (qz(x), ml), (kind, tuple(modes)))
     k = len(modes)
     if kind == "Interferometer":
         m = rand_matrix(rng, k)
@@ -150,19 +159,21 @@ def make_op(rng, kind, modes, special=False):
     raise ValueError(kind)
 
 
+def small_int_matrix(rng, k):
+    return [[(Fraction(rng.randint(-2, 2)), Fraction(rng.randint(-2, 2))) for _ in range(k)] for _ in range(k)]
+
+
 def prefix_ops(rng, d):
-    """a short physical preparation that correlates all modes and gives m, C, G non-zero"""
-    ops = []
-    for i in range(d):
-        ops.append(make_op(rng, "Displacement", (i,)))
-    if d >= 2:
-        order = list(range(d))
-        rng.shuffle(order)
-        for a, b in zip(order, order[1:]):
-            ops.append(make_op(rng, rng.choice(["Squeezing2", "Beamsplitter"]), (a, b)))
-        ops.append(make_op(rng, "Squeezing", (order[0],)))
-    else:
-        ops.append(make_op(rng, "Squeezing", (0,)))
+    """cheap preparation of a generic state with Hermitian C, symmetric G and non-zero m, all with
+    small integer entries: displacements, then one _apply_linear on all modes with A = P D
+    (D real diagonal), so that G = P D P^T and C = conj(P) D^2 P^T"""
+    ops = [make_op(rng, "Displacement", (i,)) for i in range(d)]
+    P = small_int_matrix(rng, d)
+    D = [Fraction(rng.choice([-2, -1, 1, 2, 3])) for _ in range(d)]
+    A = [[(P[i][j][0] * D[j], P[i][j][1] * D[j]) for j in range(d)] for i in range(d)]
+    modes = tuple(range(d))
+    ops.append(({"k": "raw", "P": fl_matrix(P), "A": fl_matrix(A), "modes": list(modes)},
+                "OTransform %s %s %s" % (cmat(P), cmat(A), nlist(modes)), ("raw_linear", modes)))
     return ops
 
 
@@ -198,11 +209,11 @@ def gen_sequences(chk):
                 ops = prefix_ops(rng, d) + [make_op(rng, kind, modes, special=(rng.random() < 0.2))]
                 cases.append(seq_case(d, HBARS[hb % 4], ops))
                 hb += 1
-    nrand = 600 if chk.thorough else 60
+    nrand = NRAND_T if chk.thorough else NRAND_Q
     for _ in range(nrand):
         d = rng.randint(1, 5)
         ops = []
-        for _ in range(rng.randint(3, 9)):
+        for _ in range(rng.randint(3, 7)):
             k = rng.randint(1, min(d, 3))
             modes = tuple(rng.sample(range(d), k))
             ops.append(make_op(rng, rng.choice(kinds_for(k)), modes, special=(rng.random() < 0.15)))
@@ -211,6 +222,7 @@ def gen_sequences(chk):
     return cases
 
 
+NRAND_Q, NRAND_T = 40, 400
 SQRT_DIGITS = 40
 
 
@@ -223,6 +235,17 @@ def qsqrt(fr):
 
 
 # --------------------------------------------------------------------------- the check
+_T = [time.time()]
+
+
+def lap(chk, what):
+    now = time.time()
+    chk.notes.append("timing: %s %.1fs" % (what, now - _T[0]))
+    if os.environ.get("VERIF_TIMING"):
+        print("timing: %s %.1fs" % (what, now - _T[0]), file=sys.stderr)
+    _T[0] = now
+
+
 def regenerate(chk, corr_broken):
     try:
         text, meta = c07_translate.translate(common.REPO)
@@ -239,7 +262,9 @@ def regenerate(chk, corr_broken):
 def run(chk: Check):
     corr_broken = []
     meta = regenerate(chk, corr_broken)
+    lap(chk, "translate")
     chk.proofs(timeout=2400)
+    lap(chk, "coq proofs")
     if meta is None or not chk.proof["ok"]:
         # model not available: only the direct search can run
         search(chk, None)
@@ -259,6 +284,7 @@ def run(chk: Check):
             seen.add(p.key(gate))
             bcases.append((gate, p))
     impl_blocks = run_impl("c07_impl.py", {"blocks": [{"gate": g, "params": p.floats(g)} for g, p in bcases]})["blocks"]
+    lap(chk, "impl blocks")
     items = []
     for (g, p), r in zip(bcases, impl_blocks):
         items.append("(%s, %s, %s, %s)" % (g, p.env(), fmat(r["P"]),
@@ -266,13 +292,14 @@ def run(chk: Check):
     bodies = []
     chunk = 60
     for i in range(0, len(items), chunk):
-        bodies.append(HEADER + "Definition cases := [%s].\nEval vm_compute in mismatches block_ok cases.\n"
+        bodies.append(HEADER_QS + "Definition cases : list block_case := [%s].\nEval vm_compute in mismatches block_ok cases.\n"
                       % ";\n".join(items[i:i + chunk]))
     outs = coq_eval_parallel("c07_blocks", bodies, jobs=4)
     for j, o in enumerate(outs):
         for k in parse_coq_list(o)[0]:
             g, p = bcases[j * chunk + k]
             corr_broken.append("gate block model!=impl: %s %s" % (g, p.floats(g)))
+    lap(chk, "coq blocks")
     chk.stream("gate blocks: _get_passive_block/_get_active_block vs generated model (exact Q(sqrt2)[i] vs float)",
                len(bcases), sum(1 for g, p in bcases if GATE_PARAMS[g]),
                samples=[{"gate": g, "params": p.floats(g)} for g, p in bcases[:2]])
@@ -281,23 +308,29 @@ def run(chk: Check):
     cases = gen_sequences(chk)
     impl = run_impl("c07_impl.py", {"seqs": [{"d": c["d"], "hbar": float(c["hbar"]), "ops": [o[0] for o in c["ops"]]} for c in cases]},
                     timeout=3000)["seqs"]
+    lap(chk, "impl sequences")
     items = []
     for c, r in zip(cases, impl):
         prog = "[" + ";\n  ".join(o[1] for o in c["ops"]) + "]"
-        items.append("(%d, %s, %s, %s,\n  [%s], [%s])" % (
+        items.append("(%d, %s, %s, %s,\n  [%s]%%Z, [%s]%%Z)" % (
             c["d"], qz(c["hbar"]), qz(qsqrt(2 * c["hbar"])), prog,
-            "; ".join(qfloat(x) for x in r["mean"]),
-            "; ".join("[" + "; ".join(qfloat(x) for x in row) + "]" for row in r["cov"])))
-    bodies = []
-    chunk = 40
-    for i in range(0, len(items), chunk):
-        bodies.append(HEADER + "Definition cases := [%s].\nEval vm_compute in mismatches seq_ok cases.\n"
-                      % ";\n".join(items[i:i + chunk]))
+            "; ".join(zf(x) for x in r["mean"]),
+            "; ".join("[" + "; ".join(zf(x) for x in row) + "]" for row in r["cov"])))
+    bodies, index = [], []
+    chunk = 80
+    for variant, hdr in ((False, HEADER_Q), (True, HEADER_QS)):
+        idx = [i for i, c in enumerate(cases) if any(o[2][0] == "Beamsplitter5050" for o in c["ops"]) == variant]
+        for i in range(0, len(idx), chunk):
+            part = idx[i:i + chunk]
+            index.append(part)
+            bodies.append(hdr + "Definition cases : list seq_case := [%s].\nEval vm_compute in mismatches seq_ok cases.\n"
+                          % ";\n".join(items[k] for k in part))
     outs = coq_eval_parallel("c07_seq", bodies, jobs=4, timeout=2400)
+    lap(chk, "coq sequences")
     bad = []
-    for j, o in enumerate(outs):
+    for part, o in zip(index, outs):
         for k in parse_coq_list(o)[0]:
-            bad.append(j * chunk + k)
+            bad.append(part[k])
     for i in bad[:10]:
         c = cases[i]
         corr_broken.append("simulator xxpp mean/cov != moment model: d=%d hbar=%s ops=%s" % (
@@ -307,7 +340,7 @@ def run(chk: Check):
                "(every ordered subset of d<=5 modes, hbar in {1/2,1,2,37/10})",
                len(cases), distinct,
                samples=[{"d": c["d"], "hbar": str(c["hbar"]), "ops": [list(map(str, o[2])) for o in c["ops"]]} for c in cases[100:102]],
-               note="%d of the sequences end in an operation on an ordered subset enumerated exhaustively" % (len(cases) - (600 if chk.thorough else 60)))
+               note="%d of the sequences end in an operation on an ordered subset enumerated exhaustively" % (len(cases) - (NRAND_T if chk.thorough else NRAND_Q)))
 
     search(chk, cases)
     finish(chk, corr_broken)
